@@ -1162,7 +1162,7 @@ pub fn check(ctx: &Ctx) -> Vec<PartReport> {
         },
     ));
 
-    let n = ctx.cases(5_000, 300_000);
+    let n = ctx.cases(20_000, 300_000);
     let n64 = n as u64;
     let mut require: Vec<(&str, u64)> = vec![
         ("table:root", n64 / 4),
